@@ -264,6 +264,8 @@ impl Transaction {
 
 		// Get the current visible sequence number as our start point.
 		let start_seq_num = core.seq_num();
+		#[cfg(surrealkv_verif)]
+		crate::verif::gate("txn.begin.loaded", &[("start", start_seq_num)]);
 
 		// Register this txn's start_seq with the GC watermark tracker.
 		// Both read-write and write-only txns register here (write-only txns
